@@ -512,6 +512,38 @@ def main(tier, seed):
                     res.violation("the typed parameter %s (%s) of a SELECT is read with file severity %s: %s" % (
                                   lit_, "in a list" if form_ == "agg" else "as the attribute", fsev_, "a well-formed literal is refused" if good_ else "a malformed literal is read without a message"),
                                   {"literal": lit_, "replay": "%s read <file with #2=HOLDER(%s,#1,$);> dump -" % (hfile_, lit_)})
+        # entity references: a well-formed name of an existing instance is bound to exactly that instance; a name no instance has
+        # (beyond 32 or 64 bits too: never folded onto an existing one), a signed, empty or alphanumeric name is reported
+        ref_cases = [("#1", "#1"), ("#3", "#3"), ("#03", "#3"), ("#0001", "#1"), ("#99", None), ("#4294967297", None), ("#4294967299", None),
+                     ("#8589934593", None), ("#18446744073709551617", None), ("#18446744073709551619", None), ("#-1", None), ("#1x", None),
+                     ("#0", None), ("#", None), ("#x", None), ("#1.", None), ("#1.0", None)]
+        for ref_, want_ in ref_cases:
+            for form_ in ("attr", "agg"):
+                body_ = "#1=POINT('p',0.,0.,$);\n#3=POINT('q',1.,0.,$);\n" + (
+                    ("#2=HOLDER(LABEL('x'),%s,$);\n" % ref_) if form_ == "attr" else
+                    ("#2=POLY((#1,%s),(1.,2.,3.),('a'),(1),((1)),(.RED.),$,(LABEL('a')),(),(.T.),());\n" % ref_))
+                ftp = os.path.join(twd, "r.p21")
+                open(ftp, "w").write("ISO-10303-21;\nHEADER;\nFILE_DESCRIPTION(('d'),'2;1');\nFILE_NAME('f','2020-01-01T00:00:00',('a'),('o'),'p','s','a');\n"
+                                     "FILE_SCHEMA(('VERIF_ALL'));\nENDSEC;\nDATA;\n" + body_ + "ENDSEC;\nEND-ISO-10303-21;\n")
+                rct, ot, et = sh([hfile_, "read", ftp, "dump", "-"], timeout=60)
+                sevl_ = [l_ for l_ in ot.split("\n") if l_.startswith("SEV read")]
+                fsev_ = int(sevl_[0].split()[3]) if sevl_ else None
+                il_ = [l_ for l_ in ot.split("\n") if l_.startswith("INST ") and " #2 " in l_]
+                mref_ = re.search(r"\| e=([#$\w]*)" if form_ == "attr" else r"\| pts=\(#1,([^)]*)\)", il_[0]) if il_ else None
+                got_ = mref_.group(1) if mref_ else None
+                total += 1
+                kinds_hist["reference"] = kinds_hist.get("reference", 0) + 1
+                bad_ = None
+                if fsev_ is None:
+                    bad_ = "the reader dies or prints no severity"
+                elif want_ and (fsev_ < 3 or got_ != want_):
+                    bad_ = "a well-formed reference to an existing instance is read with file severity %s as %s" % (fsev_, got_)
+                elif not want_ and fsev_ >= 2:
+                    bad_ = "no instance has that name, yet it is read without a message, as %s" % got_
+                if bad_:
+                    oracle_fail += 1
+                    res.violation("the entity reference %s (%s): %s" % (ref_, "in a list" if form_ == "agg" else "as the attribute", bad_),
+                                  {"literal": ref_, "replay": "%s read <file with #1, #3 = POINT and #2=HOLDER(LABEL('x'),%s,$);> dump -" % (hfile_, ref_)})
         shutil.rmtree(twd, ignore_errors=True)
     except BuildError as e_:
         res.violation("build failed: %s" % e_, {"error": str(e_)}, found_input=False)
@@ -550,8 +582,7 @@ def main(tier, seed):
         "severity_histogram": {str(k): v for k, v in sev_hist.items()},
         "correspondence_disagreements": disagreements,
         "oracle_failures": oracle_fail,
-        "unproved_clauses": ["STRING/BINARY/entity-reference tokens are not in the model yet "
-                             "(covered by C01/C03 correspondence only)",
+        "unproved_clauses": ["entity-reference tokens are not in the model (fixed cases through the schema reader only)",
                              "binary64 value of a decimal numeral (trusted: strtod)"],
     })
     res.assumptions = ["C locale", "delimiter list ',)' as passed by STEPattribute::STEPread"]
